@@ -59,7 +59,7 @@ def lexical_forms(c, quick, seed, clsname=None):
             out.append((f, f))
     elif t in ("String", "NagString"):
         n = c.params
-        forms = ["a", "&amp;", "&lt;", "&gt;", "&nbsp;x", "&apos;", "&quot;", "a&amp;lt;b", "&amp;amp;", "&amp;gt;&amp;quot;", "é€", "x>y", "a  b", "0", "A&amp;B&lt;c&gt;\"'"]
+        forms = ["a", "&amp;", "&lt;", "&gt;", "&nbsp;x", "&apos;", "&quot;", "a&amp;lt;b", "&amp;amp;", "&amp;gt;&amp;quot;", "é€", "x>y", "a  b", "0", "A&amp;B&lt;c&gt;\"'", "\u2019\u0160\u2122"]
         for f in forms:
             v = R.unescape(f)
             if n is not None and len(v) > n:
@@ -109,6 +109,14 @@ def run_doc(t, term, override, sig_prefix, case, forms=("xml", "sgml")):
         if form == "cdata":
             data, nsec = cdata_bytes(sterm)
             if nsec == 0:
+                continue
+        elif form == "sgml-1252":
+            # a v1 file in Windows-1252, as most v1 servers send: the declared CHARSET decides what the bytes mean
+            from vf import ref_header as H
+
+            try:
+                data = H.render_v1(H.v1_fields(102, encoding="USASCII", charset="1252")).encode("ascii") + ref_sgml.render(sterm, wire.sgml_leafopts(sterm), None).encode("cp1252")
+            except UnicodeEncodeError:
                 continue
         else:
             data = wire.to_bytes(sterm, form)
@@ -176,7 +184,8 @@ def work(chunk):
                 except R.RefValueError as e:
                     raise HarnessError(f"lexical alphabet holds a text the reference rejects: {c!r} {text!r}: {e}")
                 case = {"cls": clsname, "child": c.name, "text": text}
-                run_doc(t, term, {path: text}, f"C03|{clsname}.{c.name}|{lexclass(c, label)}", case)
+                forms = ("xml", "sgml", "sgml-1252") if any(ord(ch) > 127 for ch in text) else ("xml", "sgml")
+                run_doc(t, term, {path: text}, f"C03|{clsname}.{c.name}|{lexclass(c, label)}", case, forms=forms)
                 t.count("lexical-forms")
         # the MAXS document: all children at once
         try:
